@@ -143,3 +143,13 @@ func VfNewPeering(inst instance, links ...Link) *Peering {
 	}
 	return p
 }
+
+// VfDrop: the registry no longer holds the link (what RemoveLink does to the two maps).
+func (p *Peering) VfDrop(l Link) {
+	if p.links[l.Peer()] == l {
+		delete(p.links, l.Peer())
+	}
+	if p.linksByLabel[l.SwitchLabel()] == l {
+		delete(p.linksByLabel, l.SwitchLabel())
+	}
+}
